@@ -81,6 +81,13 @@ def c_points(ctx, case):
     ctx.check((chosen <= dmin * (1 + 1e-12)).all(),
               "predict chose a centroid at distance %r where the minimum is %r" % (chosen.tolist()[:4], dmin.tolist()[:4]),
               "not-nearest")
+    # a result that the caller keeps is not changed by a later call on other rows of the same shape
+    X2 = X[::-1] * 1.25 + case["spread"]
+    kept_d, kept_l = m.transform(X), m.predict(X)
+    snap_d, snap_l = np.array(kept_d, copy=True), np.array(kept_l, copy=True)
+    m.transform(X2), m.predict(X2)
+    ctx.check(np.array_equal(np.asarray(kept_d), snap_d) and np.array_equal(np.asarray(kept_l), snap_l),
+              "distances / labels returned by an earlier call changed when the machine was called again", "result-overwritten")
     # Dask
     dX = sut.dask_rows(X, chunks)
     dgot = np.asarray(m.transform(dX).compute())
